@@ -90,7 +90,7 @@ func genC06(r *sim.Rand, tier string) *sim.Program {
 
 type c06Sig struct {
 	uid, msg, e, sig []byte
-	raw               bool // signature over a raw digest e (no user ID / message): only VerifyASN1 applies
+	raw              bool // signature over a raw digest e (no user ID / message): only VerifyASN1 applies
 }
 
 func c06Key(kk int, dBytes []byte) (*sm2.PrivateKey, *big.Int, error) {
